@@ -126,3 +126,119 @@ theorem C05_slice_element_view (v : View) (hk : v.kind = .view) (r size align le
     omega
 
 end Pelite.PtrT
+
+namespace Pelite.PtrT
+open Pelite Pelite.Pe Pelite.Spec
+
+/-- **A file view**: the same statement holds when element `i` is resolved by the SAME section as the array's first
+byte (`hsame`; true for every section table whose virtual extents do not overlap).  With overlapping extents the
+section lookup of `slice` is first-match per address, and the element can come from other bytes than the array
+holds (`C05_slice_element_file_needs_same`). -/
+theorem C05_slice_element_file (img : Img) (secs : List Sec) (hs : ∀ s ∈ secs, s.InRange)
+    (r size align len i : Nat) (ref : Ref)
+    (h : sliceFile img secs r (size * len) align = .ok ref) (hi : i < len) (hal : size % align = 0)
+    (hr : r + i * size < 4294967296) (hsame : firstV secs (r + i * size) = firstV secs r) :
+    sliceFile img secs (r + i * size) size align = .ok ⟨ref.off + i * size, ref.len - i * size, align⟩ := by
+  obtain ⟨h0, hp, ha, s, hf, h1, h2, h3, h4, h5, rfl⟩ :=
+    (C04_slice_file_ok_iff img secs hs r (size * len) align (by omega) ref).1 h
+  have hva : s.va ≤ r := by
+    have := (firstV_some hf).2
+    simp [Sec.containsRva] at this
+    exact this.1
+  have hlt : i * size + size ≤ size * len := by
+    have : (i + 1) * size ≤ len * size := Nat.mul_le_mul_right size (by omega)
+    rw [Nat.mul_comm size len]; rw [Nat.add_mul] at this; omega
+  have hdiv : (i * size) % align = 0 := by rw [Nat.mul_mod, hal]; simp
+  have hz : size = 0 → i * size = 0 := by intro h; simp [h]
+  generalize hd : i * size = d at *
+  generalize hm : size * len = m at *
+  have e1 : r + d - s.va = (r - s.va) + d := by omega
+  apply (C04_slice_file_ok_iff img secs hs _ size align hr _).2
+  refine ⟨by omega, hp, ?_, s, hsame.trans hf, h1, h2, ?_, ?_, ?_, ?_⟩
+  · rw [← Nat.add_assoc, Nat.add_mod, ha, hdiv]; simp
+  · rw [e1]; omega
+  · rw [e1]; omega
+  · rw [e1, ← Nat.add_assoc, ← Nat.add_assoc, Nat.add_mod, Nat.add_assoc img.base, h5, hdiv]; simp
+  · rw [e1]
+    simp only [Ref.mk.injEq, and_true]
+    constructor <;> omega
+
+/-- on a section table whose virtual extents are pairwise disjoint (and do not wrap), every address inside the extent
+of the section that resolves `x` is resolved by that same section -/
+theorem firstV_same_of_disjoint (secs : List Sec)
+    (hnw : ∀ s ∈ secs, s.va + max s.vs s.rs < 4294967296)
+    (hpw : secs.Pairwise (fun a b => a.va + max a.vs a.rs ≤ b.va ∨ b.va + max b.vs b.rs ≤ a.va))
+    (x y : Nat) (s : Sec) (hf : firstV secs x = some s) (hy : s.containsRva y = true) :
+    firstV secs y = some s := by
+  induction secs with
+  | nil => simp [firstV] at hf
+  | cons a rest ih =>
+    unfold firstV at hf ⊢
+    rw [List.find?_cons] at hf ⊢
+    cases hax : a.containsRva x with
+    | true =>
+      rw [hax] at hf
+      have : a = s := by simpa using hf
+      subst this
+      rw [hy]
+    | false =>
+      rw [hax] at hf
+      have hs : s ∈ rest := List.mem_of_find?_eq_some hf
+      have hdis := (List.pairwise_cons.1 hpw).1 s hs
+      have ha := hnw a (by simp)
+      have hs' := hnw s (by simp [hs])
+      have hay : a.containsRva y = false := by
+        simp only [Sec.containsRva, Nat.mod_eq_of_lt ha, Nat.mod_eq_of_lt hs', Bool.and_eq_true, decide_eq_true_eq] at hy ⊢
+        rcases hdis with h | h
+        · simp; omega
+        · simp; omega
+      rw [hay]
+      exact ih (fun t ht => hnw t (by simp [ht])) (List.pairwise_cons.1 hpw).2 hf
+
+/-- **File views with a well-formed section table** (`Spec.WF`, the hypothesis of the C04 inversion theorems): element
+`i` of a readable typed array is the typed read at `p.at(i)` -/
+theorem C05_slice_element_file_wf (img : Img) (soh : Nat) (secs : List Sec) (hs : ∀ s ∈ secs, s.InRange) (hwf : WF soh secs)
+    (r size align len i : Nat) (ref : Ref)
+    (h : sliceFile img secs r (size * len) align = .ok ref) (hi : i < len) (hal : size % align = 0)
+    (hr : r + i * size < 4294967296) :
+    sliceFile img secs (r + i * size) size align = .ok ⟨ref.off + i * size, ref.len - i * size, align⟩ := by
+  apply C05_slice_element_file img secs hs r size align len i ref h hi hal hr
+  obtain ⟨h0, hp, ha, s, hf, h1, h2, h3, h4, h5, rfl⟩ :=
+    (C04_slice_file_ok_iff img secs hs r (size * len) align (by omega) ref).1 h
+  rw [hf]
+  have hc := (firstV_some hf).2
+  have hsm := (firstV_some hf).1
+  have hnw : ∀ t ∈ secs, t.va + max t.vs t.rs < 4294967296 := fun t ht => (hwf.1 t ht).1
+  apply firstV_same_of_disjoint secs hnw (hwf.2.imp (fun h => h.2)) r _ s hf
+  have hlt : i * size + size ≤ size * len := by
+    have : (i + 1) * size ≤ len * size := Nat.mul_le_mul_right size (by omega)
+    rw [Nat.mul_comm size len]; rw [Nat.add_mul] at this; omega
+  have hz : size = 0 → i * size = 0 := by intro h; simp [h]
+  generalize i * size = d at *
+  generalize size * len = m at *
+  simp only [Sec.containsRva, Nat.mod_eq_of_lt (hnw s hsm), Bool.and_eq_true, decide_eq_true_eq] at hc ⊢
+  have : s.rs ≤ max s.vs s.rs := Nat.le_max_right _ _
+  omega
+
+/-! the hypothesis `hsame` is needed: two sections whose virtual extents overlap, the array starts in the one that
+comes SECOND in the table and runs into addresses the FIRST one also covers -/
+def wA : Sec := { nameLo := 0, nameHi := 0, chars := 0, va := 0x2000, vs := 0x1000, prd := 0x400, rs := 0x1000 }
+def wB : Sec := { nameLo := 0, nameHi := 0, chars := 0, va := 0x1000, vs := 0x3000, prd := 0x1400, rs := 0x1C00 }
+def wImg : Img := ⟨Array.replicate 0x3000 0, 0⟩
+
+/-- the eight dwords at rva 0x1FF0 are the stored bytes 0x23F0.., but the dword at rva 0x2000 = `at(4)` is read from
+offset 0x400: not the fifth element of the array (which is at 0x2400) -/
+theorem C05_slice_element_file_needs_same :
+    sliceFile wImg [wA, wB] 0x1FF0 (4 * 8) 4 = .ok ⟨0x23F0, 0xC10, 4⟩ ∧
+    elemAt 32 0x1FF0 4 4 = .ok 0x2000 ∧
+    sliceFile wImg [wA, wB] 0x2000 4 4 = .ok ⟨0x400, 0x1000, 4⟩ ∧ 0x400 ≠ 0x23F0 + 4 * 4 ∧
+    firstV [wA, wB] 0x2000 ≠ firstV [wA, wB] 0x1FF0 := by
+  decide +kernel
+
+/-- the premises of `C05_slice_element_file` are satisfiable: the same table, an array that stays below 0x2000 -/
+example : sliceFile wImg [wA, wB] 0x1F00 (4 * 8) 4 = .ok ⟨0x2300, 0xD00, 4⟩ ∧
+    firstV [wA, wB] (0x1F00 + 7 * 4) = firstV [wA, wB] 0x1F00 ∧
+    sliceFile wImg [wA, wB] (0x1F00 + 7 * 4) 4 4 = .ok ⟨0x2300 + 7 * 4, 0xD00 - 7 * 4, 4⟩ := by
+  decide +kernel
+
+end Pelite.PtrT
